@@ -17,7 +17,7 @@ RULE = ("(1) for every built-in command of the CSV library set a valid base mode
         "wrong-fuzziness results, bad paths, unknown command, duplicate result); (2) the same faults at random positions of random "
         "models with sinks; (3) every producer x consumer pairing of built-in data commands; (4) unfaulted models must be accepted; "
         "distinct by (fault kind, command, parameter, variant) / (producer, consumer)")
-REQUIRED_COUNTERS = ["rejections_checked", "side_effect_free_rejections", "acceptances_checked", "pairings_checked", "exec_events_seen_in_valid_runs"]
+REQUIRED_COUNTERS = ["rejections_checked", "side_effect_free_rejections", "acceptances_checked", "pairings_checked", "exec_events_seen_in_valid_runs", "netcdf_model_cases"]
 ASSUMPTIONS = ["a list or tuple given to a String/Path parameter is don't-care (string cleaning stringifies by design)",
                "value-dependent run-time errors (InvalidThresholds, DuplicateRawValues, ...) are not acceptance errors",
                "the acceptance rule is restated from the declarations (inputs/required/output/is_fuzzy), not from running clean()"]
@@ -103,6 +103,18 @@ def cases(ctx):
         inj = faults.inject(m, site, rng)
         if inj:
             yield {"kind": "fault", "model": inj[0], "expect": inj[1], "shuffle": rng.random() < 0.5, "rseed": rng.randrange(10 ** 9)}
+    # the same faults in models over the NetCDF library set (grids of rank 1-3, NetCDF reads and writes)
+    nc_kinds = models.param_kinds(arr.NC_LIBS)
+    nc_req = faults.required_params(arr.NC_LIBS)
+    for i in range(ctx.n(240, 12000)):
+        m = models.gen_model(rng, n_ops=rng.randint(1, 6), sinks=True, libs="nc")
+        sites = faults.applicable(m, nc_kinds, nc_req)
+        want = faults.ALL_FAULTS[i % len(faults.ALL_FAULTS)]
+        io_sites = [s for s in sites if m["commands"][s[1]]["cmd"] in ("EEMSRead", "EEMSWrite")]
+        pool_ = [s for s in (io_sites if i % 2 else sites) if s[0] == want] or sites
+        inj = faults.inject(m, rng.choice(pool_), rng)
+        if inj:
+            yield {"kind": "fault", "model": inj[0], "expect": inj[1], "shuffle": rng.random() < 0.5, "rseed": rng.randrange(10 ** 9)}
     # relative path without a working directory
     for i in range(ctx.n(40, 1000)):
         m = models.gen_model(rng, n_ops=rng.randint(1, 4), sinks=True)
@@ -122,17 +134,18 @@ def cases(ctx):
             k += 1
     # (4) valid models are accepted
     for i in range(ctx.n(300, 15000)):
-        yield {"kind": "valid", "model": models.gen_model(rng, n_ops=rng.randint(1, 10), sinks=True, metadata=rng.random() < 0.3), "rseed": rng.randrange(10 ** 9)}
+        yield {"kind": "valid", "model": models.gen_model(rng, n_ops=rng.randint(1, 10), sinks=True, metadata=rng.random() < 0.3, libs="nc" if i % 4 == 0 else "csv"),
+               "rseed": rng.randrange(10 ** 9)}
 
 
-def _run_monitored(ctx, text, d, working_dir="use-d"):
+def _run_monitored(ctx, text, d, working_dir="use-d", libs=arr.CSV_LIBS):
     """Load + run with the recorder on. Returns (error or None, program or None, log, fs changes)."""
     from mpilot.program import Program
     before = trace.snapshot_dir(d)
     log = trace.start(watch_dirs=[d])
     prog, err = None, None
     try:
-        prog = Program.from_source(text, working_dir=d if working_dir == "use-d" else working_dir)
+        prog = Program.from_source(text, libraries=libs, working_dir=d if working_dir == "use-d" else working_dir)
         trace.attach(prog)
         prog.run()
     except Exception as e:
@@ -166,7 +179,9 @@ def run_case(ctx, case):
     if kind == "restricted":
         return run_restricted(ctx, case, model, d)
     text, _ = models.to_text(model)
-    err, prog, log, changed = _run_monitored(ctx, text, d)
+    err, prog, log, changed = _run_monitored(ctx, text, d, libs=models.model_libs(model))
+    if model.get("libs") == "nc":
+        ctx.count("netcdf_model_cases")
     if kind == "valid":
         ctx.count("acceptances_checked")
         ctx.count("exec_events_seen_in_valid_runs", sum(1 for e in log if e["k"] == "exec_enter"))
